@@ -658,7 +658,23 @@ def lr_extract(V, shape):
     return cl
 
 
-FUNCS = {"lr_extract": lr_extract, "hc_indices": hc_indices, "hc_wrapper": hc_wrapper, "hc_search_step": hc_search_step, "hc_fix_perm": hc_fix_perm,
+def ifm_fuse(V, **params):
+    """two tensors may only share a live range (one address) when the output really replaces the input: harness/c03.py ifm_fuse (the real
+    live_range._get_ifm_to_fuse), registered here because a wrong fusion makes every allocator place two live tensors on the same bytes"""
+    from harness import c03
+
+    return c03.ifm_fuse(V, **params)
+
+
+def wbuf_lifetime(V, **params):
+    """the double-buffered weight buffer that holds the LAST depth slice stays alive to the end of the operation (harness/c03.py wbuf): ended one
+    step early, the allocators - which keep co-live ranges disjoint - hand its bytes to the next operator while the NPU still reads them"""
+    from harness import c03
+
+    return c03.wbuf(V, **params)
+
+
+FUNCS = {"ifm_fuse": ifm_fuse, "wbuf_lifetime": wbuf_lifetime, "lr_extract": lr_extract, "hc_indices": hc_indices, "hc_wrapper": hc_wrapper, "hc_search_step": hc_search_step, "hc_fix_perm": hc_fix_perm,
          "hc_allocate": hc_allocate, "greedy_step": greedy_step, "greedy_whole": greedy_whole, "verify_rejects": verify_rejects,
          "linear": linear, "lr_alignment": lr_alignment, "dispatch": dispatch}
 
@@ -740,6 +756,13 @@ def instances(tier, seed):
     out.append(dict(key="lr_alignment", fn="lr_alignment", params=dict(first=None, second=None)))
     for shape in ("flat", "while", "nested2"):
         out.append(dict(key="lr_extract/%s" % shape, fn="lr_extract", params=dict(shape=shape)))
+    from harness import c03
+
+    for inst in c03.instances(tier, seed):
+        if inst["fn"] == "ifm_fuse":
+            out.append(dict(key=inst["key"], fn="ifm_fuse", params=inst["params"], weight=inst.get("weight", 1)))
+        if inst["fn"] == "wbuf":
+            out.append(dict(key="wbuf_lifetime/" + inst["key"], fn="wbuf_lifetime", params=inst["params"]))
     for allocator in ("Greedy", "LinearAlloc", "HillClimb"):
         for alignment in (16, 64, 128):
             for tv in (((0, 1), (1, 2)), ((0, 0), (1, 1), (0, 1))):
